@@ -48,7 +48,12 @@ def abstract_packages(draw, max_models=8, max_ap=5, min_wav=3, max_wav=12, apdep
             'cube_dtype': draw(st.sampled_from(['f8', 'f8', 'f4'])),
             # unit the SED files / the cube are STORED in (the abstract fluxes are always mJy)
             'sed_unit': draw(st.sampled_from(['mJy', 'mJy', 'Jy', 'erg cm-2 s-1', 'ergs/cm^2/s'])),
-            'cube_unit': draw(st.sampled_from(['mJy', 'mJy', 'Jy']))}
+            'cube_unit': draw(st.sampled_from(['mJy', 'mJy', 'Jy'])),
+            'sed_err_unit': draw(st.sampled_from(['same', 'same', 'mJy', 'Jy'])),
+            'cube_unc_unit': draw(st.sampled_from(['same', 'same', 'mJy', 'Jy'])),
+            # the aperture axis may be STORED in any order (files and cube alike); the abstract description stays ascending
+            'ap_storage': draw(st.sampled_from(['asc', 'asc', 'desc', 'shuffled'])),
+            'ap_shuffle': list(draw(st.permutations(list(range(nap)))))}
 
 
 @st.composite
@@ -110,6 +115,12 @@ def emit(pkg, model_dir, fmt, file_stems=None):
         idx = idx[::-1]
     swav = [wav[i] for i in idx]
     nap = 1 if pkg['apertures'] is None else len(pkg['apertures'])
+    aidx = list(range(nap))
+    if pkg.get('ap_storage') == 'desc':
+        aidx = aidx[::-1]
+    elif pkg.get('ap_storage') == 'shuffled':
+        aidx = list(pkg['ap_shuffle'])
+    stored_aps = None if pkg['apertures'] is None else [pkg['apertures'][a] for a in aidx]
     pkgio.write_conf(model_dir, pkg['apdep'], pkg['logd_step'], version=None if fmt == 'v1' else 2)
     if fmt == 'v1':
         os.mkdir(os.path.join(model_dir, 'seds'))
@@ -129,21 +140,30 @@ def emit(pkg, model_dir, fmt, file_stems=None):
                 fac = [1e-3] * len(mwav)
             else:   # nu F_nu in erg/cm^2/s: 1 mJy = 1e-26 erg/s/cm^2/Hz
                 fac = [1e-26 * om.C_UM_HZ / w for w in mwav]
-            fl = [[pkg['flux'][m][a][i] * fac[p] for p, i in enumerate(midx)] for a in range(nap)]
-            er = [[pkg['err'][m][a][i] * fac[p] for p, i in enumerate(midx)] for a in range(nap)]
+            fl = [[pkg['flux'][m][a][i] * fac[p] for p, i in enumerate(midx)] for a in aidx]
+            eunit = pkg.get('sed_err_unit', 'same')
+            if eunit == 'same':
+                eunit, efac = unit, fac
+            else:   # the error column carries its own unit string
+                efac = [1e-3 if eunit == 'Jy' else 1.] * len(mwav)
+            er = [[pkg['err'][m][a][i] * efac[p] for p, i in enumerate(midx)] for a in aidx]
             legacy = unit == 'ergs/cm^2/s'
             pkgio.write_sed_file(os.path.join(model_dir, 'seds', name + '_sed.fits'), name, mwav, pkgio.wav_to_nu(mwav),
-                                 pkg['apertures'], fl, er, flux_unit=unit,
+                                 stored_aps, fl, er, flux_unit=unit, err_unit=eunit,
                                  wav_unit='MICRONS' if legacy else 'um', nu_unit='HZ' if legacy else 'Hz')
         pkgio.write_parameters(model_dir, names, pkg['params'], order=pkg['perm'])
     else:
         cfac = 1e-3 if pkg.get('cube_unit', 'mJy') == 'Jy' else 1.
-        val = [[[pkg['flux'][m][a][i] * cfac for i in idx] for a in range(nap)] for m in range(n)]
-        unc = [[[pkg['err'][m][a][i] * cfac for i in idx] for a in range(nap)] for m in range(n)]
+        uunit = pkg.get('cube_unc_unit', 'same')
+        if uunit == 'same':
+            uunit = pkg.get('cube_unit', 'mJy')
+        ufac = 1e-3 if uunit == 'Jy' else 1.
+        val = [[[pkg['flux'][m][a][i] * cfac for i in idx] for a in aidx] for m in range(n)]
+        unc = [[[pkg['err'][m][a][i] * ufac for i in idx] for a in aidx] for m in range(n)]
         import numpy as np
-        pkgio.write_cube(os.path.join(model_dir, 'flux.fits'), names, swav, pkg['apertures'], val, unc,
+        pkgio.write_cube(os.path.join(model_dir, 'flux.fits'), names, swav, stored_aps, val, unc,
                          dtype=np.float64 if pkg['cube_dtype'] == 'f8' else np.float32,
-                         val_unit=pkg.get('cube_unit', 'mJy'))
+                         val_unit=pkg.get('cube_unit', 'mJy'), unc_unit=uunit)
         pkgio.write_parameters(model_dir, names, pkg['params'])   # cube format: same order as the cube
 
 
@@ -171,6 +191,17 @@ def reference_convolved(pkg, filt, filter_integral_norm=True):
         flux.append(fr)
         err.append(er)
     return flux, err
+
+
+def stored_ap_index(pkg):
+    """position p of the stored aperture axis -> index into the (ascending) abstract aperture list"""
+    nap = 1 if pkg['apertures'] is None else len(pkg['apertures'])
+    aidx = list(range(nap))
+    if pkg.get('ap_storage') == 'desc':
+        aidx = aidx[::-1]
+    elif pkg.get('ap_storage') == 'shuffled':
+        aidx = list(pkg['ap_shuffle'])
+    return aidx
 
 
 def table_order(pkg, fmt):
